@@ -18,4 +18,12 @@ if "--avoid" in sys.argv:
         t += ("\n\nA previous round already used the following ideas — produce DIFFERENT ones (other functions, other mechanisms, "
               "other kinds of trigger: option combinations, ambient configuration/environment, state carried across calls, "
               "rarely used entry points, interactions between two call sites, platform limits):\n" + "\n".join(olds) + "\n")
+if "--core" in sys.argv:
+    t += ("\n\nFocus for this round: the CORE LOGIC behind the property - arithmetic, rounding direction, comparisons "
+          "(< vs <=), sign / axis / operand order, boundary and empty cases, index computations, tolerance handling, "
+          "order of operations, which branch handles which case - in the functions that implement the property and in "
+          "the helpers they call (also helpers in other modules).  Earlier rounds already covered serialisation, caches, "
+          "threads, process state and argument type/spelling tricks: do NOT use those mechanisms this time.  Still obey "
+          "(a)-(d): the change must survive the existing tests and must need a specific (but legitimate, in-range) input "
+          "or option combination to show.\n")
 print(t)
